@@ -34,13 +34,23 @@ def run(tier, replay=None):
     if replay:
         return contlib.run_replay(ctx, j, replay)
     quick = tier == "quick"
-    rnd = random.Random(ctx.seed)
-    pool = ThreadPoolExecutor(max_workers=6)
-    scns, res, meta, runs = contlib.family_xz(ctx, j, quick, rnd, pool)
-    contlib.validate_xz_runs(ctx, j, runs, pool)
-    lscns, lres, lruns = contlib.family_lzip(ctx, j, quick, rnd, pool)
-    contlib.validate_lz_runs(ctx, j, lruns, pool)
-    contlib.dict_byte(ctx, j, quick, pool)
+    pool = ThreadPoolExecutor(max_workers=8)
+    outer = ThreadPoolExecutor(max_workers=3)
+
+    def xz_all():
+        scns, res, meta, runs = contlib.family_xz(ctx, j, quick, random.Random(ctx.seed), pool)
+        contlib.validate_xz_runs(ctx, j, runs, pool)
+        return scns
+
+    def lz_all():
+        lscns, lres, lruns = contlib.family_lzip(ctx, j, quick, random.Random(ctx.seed + 1), pool)
+        contlib.validate_lz_runs(ctx, j, lruns, pool)
+        return lscns
+
+    fx, fl, fd = outer.submit(xz_all), outer.submit(lz_all), outer.submit(contlib.dict_byte, ctx, j, quick, pool)
+    scns, lscns = fx.result(), fl.result()
+    fd.result()
+    outer.shutdown()
     pool.shutdown()
     contlib.finish(ctx, j, scns + lscns,
                    "one evaluation = one run of a real writer on a concretised TLC behaviour (or a random call script) followed by the "
